@@ -388,12 +388,13 @@ impl<'a> Interp<'a> {
                 self.push_packet(s, pingreq_packet(), MPacket::PingReq, *notify);
                 Ok(())
             }
-            Op::Disconnect { c, notify } => {
+            Op::Disconnect { c, notify, with_props } => {
                 let Some(s) = self.live_serial(*c) else {
                     self.stats.skipped += 1;
                     return Ok(());
                 };
-                self.push_packet(s, disconnect_packet(), MPacket::Disconnect, *notify);
+                let with_props = *with_props && self.specs[*c].v5;
+                self.push_packet(s, disconnect_packet(with_props), MPacket::Disconnect, *notify);
                 Ok(())
             }
             Op::DropLink { c } => {
